@@ -187,7 +187,14 @@ func (p *Parser) statements() []ast.Statement {
 	return list
 }
 
-func (p *Parser) statement() (result ast.Statement) {
+func (p *Parser) statement() ast.Statement {
+	p.NestIn()
+	stmt := p.statement2()
+	p.NestOut()
+	return stmt
+}
+
+func (p *Parser) statement2() (result ast.Statement) {
 	defer func(org int32) {
 		SetPos(result, org, p.EndPos)
 	}(p.Pos)
